@@ -1,0 +1,24 @@
+//go:build verif
+
+package cluster
+
+import "github.com/kercylan98/vivid/internal/messages"
+
+// VerifWriteClusterView / VerifReadClusterView expose the view serialiser to the verification harness.
+func VerifWriteClusterView(w *messages.Writer, v *ClusterView) error { return writeClusterView(w, v) }
+
+func VerifReadClusterView(r *messages.Reader) (*ClusterView, error) { return readClusterView(r) }
+
+// VerifLastVersionVectors returns the per-address version vectors the node remembers (gossip suppression state).
+func (a *NodeActor) VerifLastVersionVectors() map[string]VersionVector {
+	out := make(map[string]VersionVector, len(a.lastVersionVectorByAddr))
+	for k, v := range a.lastVersionVectorByAddr {
+		out[k] = v.Clone()
+	}
+	return out
+}
+
+// VerifView returns a snapshot of the node's current view and its own state.
+func (a *NodeActor) VerifView() (*ClusterView, *NodeState) {
+	return a.clusterView.Snapshot(), a.nodeState.Clone()
+}
